@@ -445,11 +445,11 @@ class ExcelInPython:
 
         if int(num_digits) > 330:
             # no double has digits that far behind the point: the number is at the requested precision already
-            return number if isinstance(number, int) else number + 0.0
+            return int(number) if isinstance(number, int) else number + 0.0
         if decimal_number.as_tuple().exponent >= -int(num_digits):
             # nothing stands behind the requested position (1e300 rounded to 100 decimals): the number as it is - spelling out its
             # hundreds of zeros would need more digits than any context offers
-            return number if isinstance(number, int) else float(decimal_number) + 0.0
+            return int(number) if isinstance(number, int) else float(decimal_number) + 0.0
         # a context of its own in every respect: precision, no inherited traps or flags of the host's default context
         context = DecimalContext(prec=400, traps=[InvalidOperation, DivisionByZero, Overflow], flags=[])
         result = decimal_number.quantize(context.scaleb(Decimal(1), -int(num_digits)), rounding=rounding, context=context)
